@@ -2,5 +2,5 @@ SPECIFICATION Spec
 CONSTANTS Procs = {1, 2, 3} Keys = {"a", "b"} MaxOps = 2 Defect = "none"
   MapOps = {"store", "load", "delete", "loadanddelete", "len", "clear"}
   AtomOps = {}
-INVARIANTS LinOK OneWinner SameHandle NoLostAdd MutualExclusion ImplMatchesAbs
+INVARIANTS LinOK OneWinner SameHandle NoLostAdd MutualExclusion ImplMatchesAbs LockHeldOnlyInBody NoStuckWaiter
 CHECK_DEADLOCK FALSE
